@@ -44,6 +44,8 @@ def gen_seq(rng):
     cfg = gen_config(rng, hostpool)
     if rng.random() < 0.6:
         cfg['explicit'] = True
+        cfg.pop('exc_api', None)
+        cfg.pop('explicit_none_passed', None)
     nclients = rng.choice([1, 2, 2, 3])
     clients = []
     for k in range(nclients):
